@@ -63,6 +63,7 @@ class FragTracker(object):
 
 # event = (kind, variant, pn_rule, npo_rule, ppo_rule)
 PN_RULES = ("next", "skip", "same", "abs0", "abs1", "absM1", "absM2")
+ABS_PN = {"abs0": 0, "abs1": 1, "absM1": M32 - 1, "absM2": M32 - 2, "abs64k": 1 << 16}  # 2^16: equal to 0 in the low half only
 
 
 def base_events():
@@ -94,6 +95,7 @@ def events(two_deviations=False):
     for kind in ("PIC", "FRAG0"):
         for r in PN_RULES[1:]:
             evs.append((kind, "own", r, "ok", "ok"))
+    evs.append(("PIC", "own", "abs64k", "ok", "ok"))
     offs_kinds = [("SH", 0, None), ("PIC", "own", "next"), ("FRAG0", "own", "next"), ("FRAGN", ("rest", "ok", "same"), None), ("PAD", None, None), ("EOS", None, None)]
     for k, v, p in offs_kinds:
         for npo in ("zero", "plus1", "five"):
@@ -165,7 +167,7 @@ def build_history(ctx, hist):
             elif pnr == "same":
                 pn = counter % M32
             else:
-                pn = {"abs0": 0, "abs1": 1, "absM1": M32 - 1, "absM2": M32 - 2}[pnr]
+                pn = ABS_PN[pnr]
             counter = pn
             f = ctx.f if variant == "own" else ctx.foreign
             a["ld"] = f.profile == B.PROFILE_LD
@@ -361,7 +363,7 @@ def _harness_frag(hist):
             elif pnr == "same":
                 counter = counter % M32
             else:
-                counter = {"abs0": 0, "abs1": 1, "absM1": M32 - 1, "absM2": M32 - 2}[pnr]
+                counter = ABS_PN[pnr]
             if kind == "FRAG0":
                 ft.start(counter)
         elif kind == "FRAGN":
